@@ -190,12 +190,18 @@ def check(tier: str) -> int:
     run.extra["edges_by_action"] = acts
     seeds_txt = []
     seen = set()
-    for e in sorted(es, key=lambda e: (not any(n["sweep"]["on"] for n in e["from"]), e["action"])):   # sweep configurations first
-        t = render(e["from"])
-        if t not in seen and len(seeds_txt) < (4 if tier == "quick" else 12):
-            seen.add(t)
-            seeds_txt.append(t)
-    fresh_process_checks(run, seeds_txt, 3 if tier == "quick" else 4)
+    # configurations re-identified in fresh interpreters: sweep configurations first, and as DIFFERENT from one
+    # another as the edge set allows (one per distinct (processor, expression, values, variable name) profile), so
+    # that the in-process references are computed after near-miss neighbours of the same generated class
+    def profile(c):
+        return tuple((n["proc"], json.dumps(n["sweep"]["expr"]), tuple(n["sweep"]["vals"]), n["sweep"].get("vname"), n["sweep"]["mode"])
+                     for n in c if n["sweep"]["on"]) or tuple(n["proc"] for n in c)
+    for e in sorted(es, key=lambda e: (not any(n["sweep"]["on"] for n in e["from"]), e["action"])):
+        pf = profile(e["from"])
+        if pf not in seen and len(seeds_txt) < (7 if tier == "quick" else 16):
+            seen.add(pf)
+            seeds_txt.append(render(e["from"]))
+    fresh_process_checks(run, seeds_txt, 2 if tier == "quick" else 4)
     run.traces_validated = run.evaluations
     run.nontrivial = acts.get("PermuteSubKeys", 0) + acts.get("CommuteExpr", 0) + acts.get("Respell", 0)
     run.sample({"edge": "Respell", "text": seeds_txt[0]})
